@@ -333,11 +333,11 @@ def generate(seed, profile_name, faulty=None):
     cfg = {'profile': profile_name, 'faulty': faulty, 'page_size': R.randint(1, 7), 'double': bool(P.get('double')), 'twin': bool(P.get('twin')),
            'prefix': R.choice(['ro/', '', 'a/b/', 'ro'])}
     steps = []
-    mid = R.choice([1, 7, 8, 95, 98, 996, 9990, 99990, 1234567])
+    mid = R.choice([1, 7, 8, 95, 98, 996, 9990, 99990, 1234567, 1234567, 2147483000, 4294960000])
 
     def next_mid():
         nonlocal mid
-        mid += R.choice([1, 1, 1, 2, 3, 5, 13, 90, 900])
+        mid += R.choice([1, 1, 1, 2, 3, 5, 13, 90, 900]) if R.random() > 0.02 else R.choice([10 ** 9, 2 ** 31, 3 * 10 ** 9])
         return mid
 
     # ---- the roCreate -------------------------------------------------------
